@@ -213,9 +213,12 @@ def run(ctx):
         cr = ctx.fn(MERKLE + "::compute_root")
         ev2 = Ev(P, cr, assume=assume)
         pads = []
+        from lib import zero_fill
         for bb, t in cr.calls():
-            if callee_name(t["fn"].get("path", "")) == "from_elem":
-                pads.append((bb, intval(W, ev2, ev2.call_args(bb)[1])))
+            if callee_name(t["fn"].get("path", "")) == "push" and bb in ev2.live():
+                z = zero_fill(W, ev2, ev2.call_args(bb)[1])
+                if z is not None:
+                    pads.append((bb, intval(W, ev2, z)))
         ctx.check("node-width", "%s/padding-node" % v, bool(pads) and all(p[1] == want for p in pads), "padding node is %d zero bytes" % want,
                   "padding node width for %s is %s, expected %d" % (v, [p[1] for p in pads], want), ctx.loc(cr))
         rp = ctx.fn(MERKLE + "::root_from_paths")
